@@ -123,6 +123,15 @@ func refKey(h crypto.Hash, mode int, salt, pass []byte, count, keyLen int) []byt
 	return toyprim.S2KKey(func() hash.Hash { return h.New() }, mode, salt, pass, count, keyLen)
 }
 
+// wipe overwrites caller-owned buffers once a call's result has been copied out.
+func wipe(bs ...[]byte) {
+	for _, b := range bs {
+		for i := range b {
+			b[i] = 0xA5
+		}
+	}
+}
+
 type fixedRand struct{ b []byte }
 
 func (r *fixedRand) Read(p []byte) (int, error) { return copy(p, r.b), nil }
@@ -264,7 +273,9 @@ func TestReplay(t *testing.T) {
 			label := fmt.Sprintf("parse mode=%d hash=%d pass=%d c=%d", r.Mode, id, len(pass), r.CC)
 			d := map[string]any{"case": label, "spec": hx(spec), "pass": hx(pass)}
 			e.guard("c20-panic", d, func() {
-				f, err := s2k.Parse(bytes.NewReader(spec))
+				specc := append([]byte(nil), spec...)
+				f, err := s2k.Parse(bytes.NewReader(specc))
+				wipe(specc) // the returned function must not depend on the caller's specifier bytes
 				if err != nil {
 					d["err"] = err.Error()
 					e.fail("c20-parse-rejects-supported-specifier", "s2k.Parse rejects a supported specifier", d)
@@ -276,9 +287,12 @@ func TestReplay(t *testing.T) {
 						continue
 					}
 					got := bytes.Repeat([]byte{0xCC}, kl)
-					f(got, pass)
-					if !bytes.Equal(got, material[:kl]) {
-						d["keylen"], d["got"], d["want"] = kl, hx(got), hx(material[:kl])
+					passc := append([]byte(nil), pass...)
+					f(got, passc)
+					res := append([]byte(nil), got...)
+					wipe(got, passc) // the caller's buffers are its own between calls
+					if !bytes.Equal(res, material[:kl]) {
+						d["keylen"], d["got"], d["want"] = kl, hx(res), hx(material[:kl])
 						e.fail("c20-parse-key-mismatch", "key derived by the function returned by s2k.Parse differs from RFC 4880 3.7.1", d)
 						return
 					}
@@ -330,12 +344,15 @@ func TestReplay(t *testing.T) {
 					want := refKey(h, 3, salt, pass, count, kl)
 					var w bytes.Buffer
 					key1 := make([]byte, kl)
-					if err := s2k.Serialize(&w, key1, &fixedRand{salt}, pass, &s2k.Config{Hash: h, S2KCount: count}); err != nil {
+					saltc, passc := append([]byte(nil), salt...), append([]byte(nil), pass...)
+					err := s2k.Serialize(&w, key1, &fixedRand{saltc}, passc, &s2k.Config{Hash: h, S2KCount: count})
+					wipe(saltc, passc)
+					if err != nil {
 						d["err"] = err.Error()
 						e.fail("c20-serialize-error", "s2k.Serialize failed", d)
 						return
 					}
-					hdr := w.Bytes()
+					hdr := append([]byte(nil), w.Bytes()...)
 					wantHdr := append(append([]byte{3, byte(j.id)}, salt...), byte(j.c))
 					if !bytes.Equal(hdr, wantHdr) {
 						d["got"], d["want"] = hx(hdr), hx(wantHdr)
@@ -348,12 +365,17 @@ func TestReplay(t *testing.T) {
 						return
 					}
 					f, err := s2k.Parse(bytes.NewReader(hdr))
+					wipe(hdr, w.Bytes())
 					if err != nil {
 						d["err"] = err.Error()
 						e.fail("c20-parse-rejects-supported-specifier", "s2k.Parse rejects the specifier written by s2k.Serialize", d)
 						return
 					}
 					key2 := make([]byte, kl)
+					// first a throw-away call whose buffers are overwritten, then the judged one
+					tmpOut, tmpPass := make([]byte, 5), []byte("other passphrase")
+					f(tmpOut, tmpPass)
+					wipe(tmpOut, tmpPass)
 					f(key2, pass)
 					if !bytes.Equal(key2, want) {
 						d["got"], d["want"] = hx(key2), hx(want)
